@@ -37,6 +37,7 @@ FLOATS = O.FLOATS
 LISTS = O.LISTS
 ELEM = O.ELEM
 LEAN_TYPE = dict(O.LEAN_TYPE)
+LEAN_TYPE['optint'] = 'Option Int'
 
 # ---------------------------------------------------------------------------------------------------
 # interface table (see object_translate.SIGS).  `cls`: the class, `file`: source file key;
@@ -65,8 +66,12 @@ SIGS = {
                                'params': [('u', 'param', NODEFAULT), ('v', 'param', NODEFAULT), ('d', 'ilist', (1, 1)),
                                           ('above', 'blist', True), ('tensor', 'boolv', True)],
                                'ret': 'tensor', 'mut': None},
+    'Surface.const_par_curve': {'cls': 'Surface', 'file': 'surface', 'py': 'const_par_curve', 'lean': 'Surface_const_par_curve',
+                                'kind': 'method', 'params': [('knot', 'npf', NODEFAULT), ('direction', 'dir', NODEFAULT)],
+                                'ret': 'self', 'mut': None},
 }
-ORDER = ['Curve.evaluate', 'Curve.derivative', 'Curve.derivative_seq', 'Surface.derivative', 'Surface.derivative_seq']
+ORDER = ['Curve.evaluate', 'Curve.derivative', 'Curve.derivative_seq', 'Surface.derivative', 'Surface.derivative_seq',
+         'Surface.const_par_curve']
 
 FILES = {'curve': 'curve.py', 'surface': 'surface.py'}
 BASES = {'Curve': 'SplineObject', 'Surface': 'SplineObject'}
@@ -83,6 +88,15 @@ MODULE_ENV = {
 GLOBALS = set(O.GLOBALS) | {'super', 'Curve', 'Surface', 'bisect_left'}
 IDEALISED = (O.IDEALISED + '; scipy.sparse result of basis.evaluate(sparse=True) = its dense matrix; super(C, self).m = '
              'translated SplineObject.m (t3); fixed spellings of polymorphic arguments (int d / bool above, `_seq` = sequences)')
+
+
+# source pinned by the mapped forms `self.shape` (property of SplineObject) and `Curve(basis, cp, rational)`
+PINNED_SRC = {
+    ('object', 'SplineObject', 'shape'): 'def shape(self):\n    return self.controlpoints.shape[:-1]\n',
+    ('curve', 'Curve', '__init__'): ('def __init__(self, basis=None, controlpoints=None, rational=False, **kwargs):\n'
+                                     '    super(Curve, self).__init__([basis], controlpoints, rational, **kwargs)\n'),
+}
+PINNED_DIGEST = {k: O.fn_digest(ast.parse(v).body[0]) for k, v in PINNED_SRC.items()}
 
 
 def py_name(key):
@@ -118,6 +132,7 @@ class VFn(O.OFn):
         self.prop_nodes = set()
         self.kw = {}
         self.is_method = True
+        self.need_pinned = set()
 
     # ------------------------------------------------------------------------------------------ helpers
     def rollback(self, fn):
@@ -187,6 +202,16 @@ class VFn(O.OFn):
             if ta == 'tensor' and scal(tb) and op is ast.Mult:
                 return '(tSMul %s %s)' % (self.cast(b, tb), a), 'tensor'
             return NotImplemented
+        if op is ast.Mod:
+            def modi():
+                a, ta = self.ex(ind, e.left)
+                b, tb = self.ex(ind, e.right)
+                if ta == tb == 'int':
+                    return self.bindm(ind, 'pyModI %s %s' % (a, b)), 'int'
+                return NotImplemented
+            r = self.rollback(modi)
+            if r is not NotImplemented:
+                return r
         if op in (ast.MatMult, ast.Add, ast.Mult):
             r = self.rollback(mine)
             if r is not NotImplemented:
@@ -214,6 +239,11 @@ class VFn(O.OFn):
                         if ti != 'int':
                             raise Untranslatable('component index of type %r' % ti)
                         return self.bindm(ind, 'getLastND %d %s %s' % (la[0], a, i)), 'tensor'
+                    if ta == 'mat' and row:
+                        i, ti = self.ex(ind, e.slice.elts[0])
+                        if ti != 'int':
+                            raise Untranslatable('row index of type %r' % ti)
+                        return self.bindm(ind, 'matRow %s %s' % (a, i)), 'flist'
                     if ta == 'tensor' and row:
                         i, ti = self.ex(ind, e.slice.elts[0])
                         if ti != 'int':
@@ -236,6 +266,31 @@ class VFn(O.OFn):
                 self.emit(ind, 'let %s ← setLastND %d %s %s %s' % (cur, la[0], cur, i, v))
                 return None
         return super().assign_to(ind, t, v, tv)
+
+    def attribute(self, ind, e):
+        v = e.value
+        if isinstance(v, ast.Name) and v.id == 'self' and 'self' in self.env and e.attr == 'shape':
+            self.need_pinned.add(('object', 'SplineObject', 'shape'))
+            return '(slice (npShape self_.controlpoints) none (some (-1 : Int)))', 'ilist'
+        return super().attribute(ind, e)
+
+    def basis_receiver(self, node):
+        wb = super().basis_receiver(node)
+        if wb is None and isinstance(node, ast.Name) and self.env.get(node.id) == 'basis' and node.id not in self.alias:
+            # a local BSplineBasis object (a clone): in-place methods rebind the variable
+            def wb(ind, newtext, name=node.id):
+                self.emit(ind, 'let %s := %s' % (O.lname(name), newtext))
+        return wb
+
+    def assigned(self, stmts):
+        out = super().assigned(stmts)
+        for st in stmts:
+            for n in ast.walk(st):
+                if (isinstance(n, ast.Call) and isinstance(n.func, ast.Attribute) and n.func.attr in self.MUTATING_BASIS
+                        and isinstance(n.func.value, ast.Name) and self.env.get(n.func.value.id) == 'basis'
+                        and n.func.value.id not in self.alias and n.func.value.id not in out):
+                    out.append(n.func.value.id)
+        return out
 
     # -------------------------------------------------------------------------------------------- calls
     def fn_call(self, ind, key, args, kws, star=None):
@@ -325,6 +380,21 @@ class VFn(O.OFn):
         return super().call(ind, e)
 
     def basis_call(self, ind, recv_node, meth, pos, kws, as_stmt):
+        if meth in ('clone', 'continuity'):
+            def mine():
+                b, tb = self.ex(ind, recv_node)
+                if tb != 'basis':
+                    return NotImplemented
+                if meth == 'clone' and not pos and not kws:
+                    return b, 'basis'           # value semantics: a deep copy is the same value
+                if meth == 'continuity' and len(pos) == 1 and not kws:
+                    k, tk = self.ex(ind, pos[0])
+                    self.uses_floor = True
+                    return self.bindm(ind, 'Basis.continuity %s tol %s' % (b, self.cast(k, tk))), 'optint'
+                return NotImplemented
+            r = self.rollback(mine)
+            if r is not NotImplemented:
+                return r
         if meth == 'evaluate' and set(kws) == {'sparse'} and isinstance(kws['sparse'], ast.Constant) \
                 and type(kws['sparse'].value) is bool:
             kws = {}        # a sparse matrix is its dense matrix
@@ -332,6 +402,30 @@ class VFn(O.OFn):
 
     def name_call(self, ind, e, n, pos, kws, star):
         one = len(pos) == 1 and not kws and star is None
+        if n in ('min', 'max') and len(pos) == 2 and not kws and star is None and n not in self.env:
+            a, ta = self.ex(ind, pos[0])
+            b, tb = self.ex(ind, pos[1])
+            if ta == 'optint' and tb == 'int' and n == 'min':
+                return '(minOptInt %s %s)' % (a, b), 'int'       # min(inf, k) = k
+            if ta == tb == 'int':
+                return '(%s %s %s)' % (n, a, b), 'int'
+            raise Untranslatable('%s(%r, %r)' % (n, ta, tb))
+        if n == 'bisect_left' and len(pos) == 2 and not kws and star is None and n not in self.env:
+            kn = pos[0]
+            if isinstance(kn, ast.Attribute) and kn.attr == 'knots':
+                b, tb = self.ex(ind, kn.value)
+                k, tk = self.ex(ind, pos[1])
+                if tb == 'basis' and tk in FLOATS:
+                    return '((Basis.bisectL %s %s : ℕ) : Int)' % (b, k), 'int'
+            raise Untranslatable('bisect_left(..) of this form')
+        if n == 'Curve' and len(pos) == 3 and not kws and star is None and n not in self.env:
+            b, tb = self.ex(ind, pos[0])
+            c, tc = self.ex(ind, pos[1])
+            r, tr = self.ex(ind, pos[2])
+            if tb != 'basis' or tc != 'tensor' or tr != 'boolv':
+                raise Untranslatable('Curve(%r, %r, %r)' % (tb, tc, tr))
+            self.need_pinned.add(('curve', 'Curve', '__init__'))
+            return self.bindm(ind, 'mkCurve %s %s %s' % (b, c, r)), 'self'
         if n == 'is_singleton' and one:
             def mine():
                 a, ta = self.ex(ind, pos[0])
@@ -364,6 +458,21 @@ class VFn(O.OFn):
                 a, ta = self.ex(ind, x)
                 parts.append(self.as_int(a, ta))
             return self.bindm(ind, 'npZeros [%s]' % ', '.join(parts)), 'tensor'
+        if attr == 'tensordot' and len(pos) == 2 and set(kws) == {'axes'}:
+            ax = kws['axes']
+            if isinstance(ax, ast.Tuple) and len(ax.elts) == 2 and _const(ax.elts[0], 0):
+                def vec():
+                    v, tv = self.ex(ind, pos[0])
+                    if tv != 'flist':
+                        return NotImplemented
+                    t, tt = self.ex(ind, pos[1])
+                    i, ti = self.ex(ind, ax.elts[1])
+                    if tt != 'tensor' or ti != 'int':
+                        raise Untranslatable('tensordot of a vector with %r, axis %r' % (tt, ti))
+                    return self.bindm(ind, 'npTensordotVec %s %s %s' % (v, t, i)), 'tensor'
+                r = self.rollback(vec)
+                if r is not NotImplemented:
+                    return r
         if attr == 'sum' and len(pos) == 1 and not kws:
             a, ta = self.ex(ind, pos[0])
             if ta != 'ilist':
@@ -594,6 +703,21 @@ def check_module_env(tree, cls, fkey, utree):
             raise Untranslatable('utils.%s differs from the pinned source its Lean primitive models' % k)
 
 
+def check_pinned(pk, sources, trees):
+    fkey, cname, mname = pk
+    if fkey not in trees:
+        if not sources.get(fkey):
+            raise Untranslatable('source %r needed to pin %s.%s is missing' % (fkey, cname, mname))
+        trees[fkey] = ast.parse(sources[fkey])
+    cls = find_class(trees[fkey], cname)
+    fns = [n for n in cls.body if isinstance(n, ast.FunctionDef) and n.name == mname]
+    if len(fns) != 1:
+        raise Untranslatable('%s.%s is not defined exactly once' % (cname, mname))
+    want_dec = ['property'] if mname == 'shape' else []
+    if [ast.unparse(d) for d in fns[0].decorator_list] != want_dec or O.fn_digest(fns[0]) != PINNED_DIGEST[pk]:
+        raise Untranslatable('%s.%s differs from the pinned source its Lean primitive models' % (cname, mname))
+
+
 def translate(sources, only=None, stub=()):
     """sources: {'curve': text, 'surface': text, 'utils': text}.
     Returns {'lean': text, 'methods': {key: {'ok', 'detail', 'lean_name', 'lines', 'python', 'calls'}}, 'digest'}."""
@@ -636,6 +760,8 @@ def translate(sources, only=None, stub=()):
             dig.append(O._strip_doc(node))
             fn = VFn(key, node, floor_users)
             text = fn.run()
+            for pk in sorted(fn.need_pinned):
+                check_pinned(pk, sources, trees)
             bad = sorted(fn.calls & failed)
             if bad:
                 raise Untranslatable('calls %s, which could not be translated' % ', '.join(bad))
@@ -665,6 +791,7 @@ if __name__ == '__main__':
     root = sys.argv[1] if len(sys.argv) > 1 else '/repo/splipy'
     srcs = {k: open(os.path.join(root, v), encoding='utf-8').read() for k, v in FILES.items()}
     srcs['utils'] = open(os.path.join(root, 'utils', '__init__.py'), encoding='utf-8').read()
+    srcs['object'] = open(os.path.join(root, 'splineobject.py'), encoding='utf-8').read()
     r = translate(srcs)
     print(r['lean'])
     for k, v in r['methods'].items():
